@@ -8,6 +8,7 @@ CONSTANTS
   Kinds = {"asg", "del", "read", "mr", "try"}
   HSh <- HShSmall
   AsVars = TRUE
+  Pre <- PreNone
   MaxWord = 6
   Dump = TRUE
 INVARIANT GenWellFormed
